@@ -81,6 +81,9 @@ def corpus_helpers(tier):
     out.append(([part("first", None, b"plain ascii", "text/plain; charset=ISO-8859-1"), part("second", None, "Zürich 5 €".encode()), part("u", "ü.txt", "é".encode(), "text/plain; charset=utf-16"), part("third", None, "中".encode())], b, "utf-8", None, None))
     # parts long enough to be delivered in several hundred pieces (more Data events than the default part limit)
     out.append(([part("big", "big.bin", bytes(range(256)) * 2), part("txt", None, ("line of text " * 30).encode())], b, "utf-8", None, None))
+    # file names that are not in Unicode normalisation form C (what a macOS client sends), and code points that normalisation
+    # replaces by others (OHM SIGN, ANGSTROM SIGN, conjoining Hangul jamo): a file name is text, handed on as it came
+    out.append(([part("u", "e\u0301.txt", b"nfd"), part("e\u0301", None, "e\u0301 \u2126".encode()), part("v", "\u2126\u212b \u1112\u1161\u11ab.bin", b"\x00")], b, "utf-8", None, None))
     # a boundary made of the RFC 2046 characters that force the Content-Type parameter to be a quoted string (comma, equals sign,
     # parentheses, blank inside): the request accessors must hand the decoder the boundary the client wrote
     out.append(([part("f", None, "é, x".encode()), part("u", "a,b.txt", b"1,2\r\n")], b"=_Part,17_+(x) y", "utf-8", None, None))
@@ -341,12 +344,13 @@ def via_wsgi_form(chunks, boundary, charset):
         r.close()
 
 
-def via_asgi_form(chunks, boundary, charset):
+def via_asgi_form(chunks, boundary, charset, executor_order="inline"):
     from baize.asgi import Request
 
     req = SV.AReq(method="POST", headers=[("Content-Type", content_type_for(boundary, charset))], chunks=chunks)
     msgs = SV.to_messages(req)
     with Session() as s:
+        s.loop.executor_order = executor_order
         i = [0]
 
         async def receive():
